@@ -340,7 +340,7 @@ def conditions(tier):
 
 
 META = {
-    "bounds": {"quick": "per call site: <=3 evaluations of <=/>=, <=2 of `in` with previous list of <=2, 7 key-access patterns for snapshot[key], == with canonical/hand-written/missing argument; all 16 approved subsets; all values symbolic ints",
+    "bounds": {"quick": "per call site: <=3 evaluations of <=/>=, <=2 of `in` with previous list of <=2, 11 key-access patterns for snapshot[key] (incl. keys that are accessed but not compared), snapshots that no test uses in the run, == with canonical/hand-written/missing argument; all 16 approved subsets; all values symbolic ints",
                "thorough": "<=4 evaluations of <=/>=, <=3 of `in` with previous list of <=3, 11 key-access patterns"},
     "outside": "more evaluations per site, values that are not totally ordered ints, nested sub-snapshots deeper than one level",
     "assumptions": [
